@@ -61,10 +61,10 @@ static const char* RULESETS[] = {
   "rule t_alpha : tagA tagB { meta: author = \"x\" n = 3 ok = true strings: $a = \"alpha_text\" $b = /reg[0-9]+ex/ $w = \"widestr\" wide condition: any of them }\n"
   "rule t_xor : tagB { strings: $x = \"xorsecret\" xor(1-255) condition: $x }\n"
   "rule t_fib { strings: $f = /x(a{1,3}){1,400}y/ condition: $f }\nrule t_big { condition: ext_big > 4294967296 }\n"
-  "rule t_mz { condition: uint16(0) == 0x5a4d }\nrule t_ext { condition: ext_i == 7 }\nrule t_modext { condition: hash == 7 and filesize > 20 }\nrule t_deep { strings: $m = \"reg7ex\" condition: $m and (1 + (1 + (1 + (1 + (1 + (1 + (1 + (1 + (1 + (1 + (1 + filesize))))))))))) > 11 }\nrule t_small : tagA { condition: filesize < 100 }\nprivate rule t_priv { condition: true }\nrule t_dep { condition: t_priv and filesize > 5 }\n",
+  "rule t_mz { condition: uint16(0) == 0x5a4d }\nrule t_ext { condition: ext_i == 7 }\nrule t_modext { condition: hash == 7 and filesize > 20 }\nrule t_deep { strings: $m = \"reg7ex\" condition: $m and (1 + (1 + (1 + (1 + (1 + (1 + (1 + (1 + (1 + (1 + (1 + (1 + (1 + (1 + (1 + (1 + (1 + (1 + (1 + (1 + (1 + (1 + (1 + (1 + filesize)))))))))))))))))))))))) > 24 }\nrule t_small : tagA { condition: filesize < 100 }\nprivate rule t_priv { condition: true }\nrule t_dep { condition: t_priv and filesize > 5 }\n",
   "import \"pe\"\nimport \"elf\"\nimport \"console\"\nglobal rule g_nonempty { condition: filesize > 0 }\n"
   "rule m_pe : bin { condition: pe.number_of_sections > 0 }\nrule m_elf : bin { condition: elf.type == elf.ET_DYN or elf.type == elf.ET_EXEC }\n"
-  "rule m_many : text { strings: $a = \"ab\" $h = { 61 62 ?? 61 } condition: #a > 2 or $h }\nrule m_ext : text { condition: ext_i == 7 and ext_s contains \"ne\" and ext_big != 5 }\nrule m_log : text { condition: console.log(\"size \", filesize) and filesize < 60 }\nrule m_modext : text { condition: hash == 7 and filesize < 40 }\nrule m_deep { condition: elf.number_of_sections > 0 and (1 + (1 + (1 + (1 + (1 + (1 + (1 + (1 + (1 + (1 + (1 + filesize))))))))))) > 11 }\n",
+  "rule m_many : text { strings: $a = \"ab\" $h = { 61 62 ?? 61 } condition: #a > 2 or $h }\nrule m_ext : text { condition: ext_i == 7 and ext_s contains \"ne\" and ext_big != 5 }\nrule m_log : text { condition: console.log(\"size \", filesize) and filesize < 60 }\nrule m_modext : text { condition: hash == 7 and filesize < 40 }\nrule m_deep { condition: filesize > 4 and uint32(0) == 0x464c457f and (1 + (1 + (1 + (1 + (1 + (1 + (1 + (1 + (1 + (1 + (1 + (1 + (1 + (1 + (1 + (1 + (1 + (1 + (1 + (1 + (1 + (1 + (1 + (1 + filesize)))))))))))))))))))))))) > 24 }\n",
 };
 static const int NRULESETS = 2;
 
@@ -128,7 +128,7 @@ static Opts draw_opts(Rng& rng) {
   if (rng.chance(1, 8)) { o.flags.push_back("-i"); o.flags.push_back(o.ruleset == 0 ? "t_alpha" : "m_many"); }
   if (rng.chance(1, 12)) { o.flags.push_back("-l"); o.flags.push_back("1"); o.limit = true; }
   if (rng.chance(1, 8)) o.flags.push_back("--fail-on-warnings");
-  if (rng.chance(1, 8)) { o.flags.push_back("-k"); o.flags.push_back("8"); }      // evaluation stack of 8 slots: t_deep / m_deep overflow it on the files where they get that far
+  if (rng.chance(1, 6)) { o.flags.push_back("-k"); o.flags.push_back("16"); }      // evaluation stack of 16 slots: enough for every rule except t_deep / m_deep, which overflow it on the files where the part before `and` holds
   if (rng.chance(1, 5)) { o.flags.push_back("-N"); o.nofollow = true; }
   o.recursive = rng.chance(1, 2);
   static const int ths[] = {1, 2, 3, 4, 8, 16, 32}; o.threads = ths[rng.below(7)];
@@ -320,6 +320,57 @@ static void run_c17cli(uint64_t seed, int64_t run, bool thorough, Stats& st, std
   }
 }
 
+
+// C20 through the command line: `-d id=value` at every level the CLI offers (compile time for `yara RULES`,
+// compile time for `yarac`, rule-set level for `yara -C ... -d`) must make the rules behave as if the value had
+// been written as a literal of the same type.  Expectation: the literal twin, run through the same binary.
+struct DVal { const char* text; const char* literal; char type; };
+static const DVal DVALS[] = {
+  {"7", "7", 'i'}, {"0", "0", 'i'}, {"-3", "(-3)", 'i'}, {"010", "10", 'i'}, {"0099", "99", 'i'}, {"2147483647", "2147483647", 'i'}, {"2147483648", "2147483648", 'i'},
+  {"4294967396", "4294967396", 'i'}, {"-2147483649", "(-2147483649)", 'i'}, {"9223372036854775807", "9223372036854775807", 'i'},
+  {"2.5", "2.5", 'f'}, {"-0.5", "(-0.5)", 'f'}, {"10.0", "10.0", 'f'}, {"007.250", "7.25", 'f'},
+  {"true", "true", 'b'}, {"false", "false", 'b'},
+  {"needle", "\"needle\"", 's'}, {"hay needle", "\"hay needle\"", 's'}, {"007x", "\"007x\"", 's'}, {"1e5", "\"1e5\"", 's'}, {"True", "\"True\"", 's'}, {"-", "\"-\"", 's'}, {"a=b", "\"a=b\"", 's'},
+};
+static const int NDVALS = sizeof(DVALS) / sizeof(DVALS[0]);
+static std::string dval_rules(const DVal& d, const std::string& v) {
+  if (d.type == 'i') return "rule d_eq7 { condition: " + v + " == 7 }\nrule d_pos { condition: " + v + " > 0 }\nrule d_big { condition: " + v + " > 4294967296 }\nrule d_i32 { condition: " + v + " >= 2147483647 }\nrule d_small { condition: " + v + " < 50 }\nrule d_ten { condition: " + v + " == 10 or " + v + " == 99 }\nrule d_at { strings: $a = \"alpha_text\" condition: $a at " + v + " - 2 }\nrule d_neg { condition: " + v + " < -2147483648 }\n";
+  if (d.type == 'f') return "rule d_f1 { condition: " + v + " > 2.0 and " + v + " < 3.0 }\nrule d_f2 { condition: " + v + " < 0.0 }\nrule d_f3 { condition: " + v + " == 10.0 or " + v + " == 7.25 }\n";
+  if (d.type == 'b') return "rule d_b { condition: " + v + " }\nrule d_nb { condition: not " + v + " }\n";
+  return "rule d_s1 { condition: " + v + " contains \"needle\" }\nrule d_s2 { condition: " + v + " == \"007x\" or " + v + " == \"1e5\" or " + v + " == \"True\" or " + v + " == \"-\" or " + v + " == \"a=b\" }\nrule d_s3 { condition: " + v + " matches /^hay / }\n";
+}
+static void run_c20cli(uint64_t seed, int64_t run, Stats& st, std::set<std::string>& reported, bool replaying) {
+  const DVal& d = DVALS[run % NDVALS]; int level = (int) ((run / NDVALS) % 3);   // 0: yara RULES, 1: yarac -d then yara -C, 2: yarac with a placeholder then yara -C -d
+  static const char* LV[] = {"yara-source", "yarac-define", "compiled-rules-redefine"};
+  std::string work = tmp_dir() + "/c20cli"; mkdirs(work);
+  std::string ext_rules = work + "/ext.yar", lit_rules = work + "/lit.yar", yarc = work + "/ext.yarc", target = work + "/target.txt";
+  write_file(ext_rules, dval_rules(d, "v")); write_file(lit_rules, dval_rules(d, d.literal)); write_file(target, "xxxxxalpha_text and more text\n"); unlink(yarc.c_str());
+  SchedPolicy p1; p1.kind = 2; p1.switch_den[0] = 64; p1.bb_mean = 1000000; p1.max_steps = 50000000;
+  std::string def = std::string("v=") + d.text;
+  static const char* PLACE[] = {"v=1", "v=1.5", "v=true", "v=placeholder"}; const char* place = d.type == 'i' ? PLACE[0] : d.type == 'f' ? PLACE[1] : d.type == 'b' ? PLACE[2] : PLACE[3];
+  InvResult lit = run_cli(false, {"yara", lit_rules, target}, 1, p1, 1); st.c["cli_invocations"]++;
+  InvResult got;
+  if (level == 0) got = run_cli(false, {"yara", "-d", def, ext_rules, target}, 1, p1, 1);
+  else {
+    InvResult c = run_cli(true, {"yarac", "-d", level == 1 ? def : std::string(place), ext_rules, yarc}, 1, p1, 1); st.c["cli_invocations"]++;
+    if (c.status != 0 || c.rc != 0) { got = c; got.out = "(yarac failed) " + c.out; }
+    else if (level == 1) got = run_cli(false, {"yara", "-C", yarc, target}, 1, p1, 1);
+    else got = run_cli(false, {"yara", "-d", def, "-C", yarc, target}, 1, p1, 1);
+  }
+  st.runs++; st.c["cli_invocations"]++; st.c[std::string("c20cli.level.") + LV[level]]++; st.c[std::string("c20cli.type.") + d.type]++;
+  Hash64 h; h.add("c20cli"); h.addu(run % (NDVALS * 3)); st.hash(h.h);
+  std::string sig, klass, detail;
+  if (lit.status != 0 || lit.rc != 0) { klass = "harness"; sig = "cli-ext|literal-twin-failed"; detail = lit.err + lit.iso.err.substr(0, 300); }
+  else if (got.status == 3) { klass = "crash"; sig = std::string("cli-ext|") + LV[level] + "|crash|" + sim_crash_signature(got.iso); detail = got.iso.err.substr(0, 1200); }
+  else if (got.status != 0) { klass = "hang"; sig = std::string("cli-ext|") + LV[level] + "|no-termination"; }
+  else if (got.rc != 0 || lines(got.out) != lines(lit.out)) {
+    klass = "external-differs-from-literal"; sig = std::string("cli-ext|") + LV[level] + "|type=" + d.type + "|" + (got.rc != 0 ? "failed" : "verdicts-differ") + "|value=" + d.text;
+    detail = std::string("-d v=") + d.text + " (" + LV[level] + "): exit " + std::to_string(got.rc) + ", printed '" + replace_all(got.out, target, "F").substr(0, 200) + "' stderr '" + got.err.substr(0, 120) + "'; the same rules with the literal " + d.literal + " print '" + replace_all(lit.out, target, "F").substr(0, 200) + "'";
+  }
+  if (!sig.empty()) { st.c["viol." + klass]++; if (reported.insert(sig).second || replaying) { J rp = J::obj(); rp.set("engine", "sim_cli"); rp.set("c20cli", true); rp.set("seed", (int64_t) seed); rp.set("run", run); emit_violation("C20", klass, sig, detail, rp); } }
+  if (st.samples.size() < 3) { J s = J::obj(); s.set("define", def); s.set("level", LV[level]); s.set("stdout", replace_all(got.out, target, "F").substr(0, 120)); st.sample(s); }
+}
+
 int main(int argc, char** argv) {
   Args args(argc, argv);
   sim_symbolize((void*) &main);
@@ -329,7 +380,8 @@ int main(int argc, char** argv) {
   if (cmd == "replay") {
     J rp; if (args.pos.size() < 2 || !J::load(args.pos[1], rp)) return 2;
     const J& c = rp.has("replay") ? rp["replay"] : rp;
-    if (c["c17cli"].truthy()) run_c17cli((uint64_t) c["seed"].num(), c["run"].num(), false, st, reported, c["n"].num());
+    if (c["c20cli"].truthy()) run_c20cli((uint64_t) c["seed"].num(), c["run"].num(), st, reported, true);
+    else if (c["c17cli"].truthy()) run_c17cli((uint64_t) c["seed"].num(), c["run"].num(), false, st, reported, c["n"].num());
     else run_case((uint64_t) c["seed"].num(), c["run"].num(), c["thorough"].truthy(), contents, st, reported, true);
     J done = J::obj(); done.set("t", "replayed"); emit_line(done);
     return 0;
@@ -344,6 +396,7 @@ int main(int argc, char** argv) {
     if (!sh.mine(i)) continue;
     if (now_s() - t0 > budget) { st.c["stopped_by_budget"]++; break; }
     if (args.get("mode", "") == "c17cli") run_c17cli(seed, i, thorough, st, reported);
+    else if (args.get("mode", "") == "c20cli") run_c20cli(seed, i, st, reported, false);
     else run_case(seed, i, thorough, contents, st, reported, false);
     st.c["reference_invocations"] = g_ref_runs;
     if (st.hashes.size() > 300) st.flush(false);
